@@ -198,6 +198,53 @@ static void mergeSweep(Ctx& c, const std::string& name, bool functorFaults, unsi
 	}
 }
 
+// ---- merges of trees with a history: edge leaves drained by removals, bursts of insertions next to the edge, different
+// heights, both directions (the fast O(log n) splice of TreeSet::MergeTo works on the outermost nodes of both trees)
+template<typename Tree, typename E>
+static void mergeDrained(Ctx& c, Rng& rng, const std::string& name, unsigned trials, unsigned maxN, unsigned maxR)
+{
+	for (unsigned t = 0; t < trials; ++t) {
+		std::string what;
+		{
+			std::unique_ptr<Tree> ba(new Tree()), bb(new Tree());
+			Tree& a = *ba; Tree& b = *bb;
+			// a holds keys from 10000 upwards (below 50000), b keys below or above; a's edge facing b is drained
+			unsigned n = (unsigned)rng.range(2, maxN), burst = rng.chance(1, 2) ? (unsigned)rng.range(1, maxR) : 0, r = (unsigned)rng.below(maxR + 1);
+			bool bBelow = rng.chance(1, 2), asc = rng.chance(2, 3);
+			std::vector<uint32_t> ka; for (unsigned i = 0; i < n; ++i) ka.push_back(10000 + i * 100);
+			if (!asc) for (size_t i = ka.size(); i > 1; --i) std::swap(ka[i - 1], ka[rng.below(i)]);
+			for (uint32_t k : ka) a.Insert(E(k));
+			// a burst of insertions a little inside the edge that faces b (fills the neighbour of the edge leaf)
+			unsigned at = (unsigned)rng.below(std::min(n, maxR + 2));
+			for (unsigned i = 0; i < burst; ++i) a.Insert(E((bBelow ? 10000 + at * 100 : 10000 + (n - 1 - std::min(at, n - 1)) * 100) + 1 + i % 98));
+			// remove r elements one by one at the edge facing b
+			for (unsigned i = 0; i < r && a.GetCount() > 1; ++i) { auto it = bBelow ? a.GetBegin() : std::prev(a.GetEnd()); a.Remove(it); }
+			unsigned nb = rng.chance(1, 3) ? (unsigned)rng.range(1, 12) : (unsigned)rng.range(1, maxN * 6);
+			for (unsigned i = 0; i < nb; ++i) b.Insert(E(bBelow ? 100 + i * 3 : 60000 + i * 3));
+			bool aToB = rng.chance(1, 2);
+			std::vector<uint32_t> all = keysOf(a); { auto d = keysOf(b); all.insert(all.end(), d.begin(), d.end()); }
+			long live0 = ec().live, copies0 = ec().copies;
+			what = fmt("%s drained-edge merge #%u: a = %u keys (%s) + burst %u at %u, %u removed at the %s edge; b = %u keys %s a; %s",
+				name.c_str(), t, n, asc ? "ascending" : "shuffled", burst, at, r, bBelow ? "low" : "high", nb, bBelow ? "below" : "above", aToB ? "a.MergeTo(b)" : "b.MergeTo(a)");
+			if (aToB) a.MergeTo(b); else b.MergeTo(a);
+			c.stats.evaluations++; c.stats.count("merge.drained"); c.stats.nontrivial(fmt("%s#%u/%u/%u/%u/%u/%d", name.c_str(), n, burst, r, nb, (unsigned)bBelow, (int)aToB));
+			Tree& dst = aToB ? b : a; Tree& src = aToB ? a : b;
+			std::vector<uint32_t> d1 = keysOf(dst), s1 = keysOf(src);
+			std::vector<uint32_t> un = d1; un.insert(un.end(), s1.begin(), s1.end()); std::sort(un.begin(), un.end()); std::sort(all.begin(), all.end());
+			if (un != all) c.fail("C10 conserve: %s: %zu elements before, %zu after the merge (destination traversal %zu, GetCount %zu)", what.c_str(), all.size(), un.size(), d1.size(), dst.GetCount());
+			if (ec().live != live0) c.fail("C10 conserve: %s: %ld element objects before the merge, %ld after", what.c_str(), live0, ec().live);
+			if (d1.size() != dst.GetCount() || s1.size() != src.GetCount()) c.fail("C10 valid: %s: counts disagree with traversals", what.c_str());
+			if (!std::is_sorted(d1.begin(), d1.end())) c.fail("C10 valid: %s: destination not sorted after the merge", what.c_str());
+			if (std::is_nothrow_move_constructible<E>::value && ec().copies != copies0) c.fail("C10 no-copy: %s: %ld copy constructions of a movable element", what.c_str(), ec().copies - copies0);
+			for (uint32_t x : all) if (!dst.ContainsKey(E(x)) && !src.ContainsKey(E(x))) { c.fail("C10 conserve: %s: element %u is in neither container", what.c_str(), x); break; }
+			if (t < 3) c.stats.sample(what, 6);
+			try { dst.Insert(E(5)); src.Insert(E(6)); } catch (...) { c.fail("C10 usable: %s", what.c_str()); }
+		}
+		if (!mm().live.empty()) { c.fail("C03 leak: %s: %zu blocks outstanding", what.c_str(), mm().live.size()); mm().live.clear(); }
+		if (ec().live != 0) { c.fail("C03 elements: %s: %ld element objects alive after destruction", what.c_str(), ec().live); ec().live = 0; }
+	}
+}
+
 // ---- extract / re-insert: the element is in exactly one of container, handle
 template<typename Set, typename E>
 static void extractSweep(Ctx& c, const std::string& name)
@@ -265,6 +312,17 @@ int main(int argc, char** argv)
 		mergeSweep<TNM, HNM, ElemNM>(c, "TreeSet->HashSet nothrow-move", true, p);
 		mergeSweep<HNM, TNM, ElemNM>(c, "HashSet->TreeSet nothrow-move", true, p);
 		mergeSweep<HCO, TCO, ElemCO>(c, "HashSet->TreeSet copy-only", true, p);
+	}
+	{
+		Rng rng(c.seed * 0x1000 + 10);
+		unsigned T = c.thorough ? 6000 : 700;
+		typedef momo::TreeSet<ElemNM, ThrowTreeTraits<ElemNM, momo::TreeNode<4, 2>>, FaultMM, momo::TreeSetItemTraits<ElemNM, FaultMM>, NoExtraT> T42;
+		typedef momo::TreeSet<ElemNM, ThrowTreeTraits<ElemNM, momo::TreeNode<6, 1, momo::MemPoolParams<1>, false>>, FaultMM, momo::TreeSetItemTraits<ElemNM, FaultMM>, NoExtraT> T61;
+		mergeDrained<TNM, ElemNM>(c, rng, "TreeSet<cap4 step1,nothrow-move>", T, 60, 9);
+		mergeDrained<TCO, ElemCO>(c, rng, "TreeSet<cap4 step1,copy-only>", T / 2, 60, 9);
+		mergeDrained<T42, ElemNM>(c, rng, "TreeSet<cap4 step2,nothrow-move>", T, 60, 9);
+		mergeDrained<T61, ElemNM>(c, rng, "TreeSet<cap6 step1 indexed,nothrow-move>", T, 80, 13);
+		mergeDrained<T32, ElemNM>(c, rng, "TreeSet<cap32,nothrow-move>", T, 300, 40);
 	}
 	extractSweep<HNM, ElemNM>(c, "HashSet<nothrow-move> extract/re-insert");
 	extractSweep<HCO, ElemCO>(c, "HashSet<copy-only> extract/re-insert");
